@@ -137,6 +137,24 @@ func (e *env) get(name string) *zap.Logger {
 			}
 		}
 		l = zap.New(zapcore.NewCore(zapcore.NewConsoleEncoder(cfg), e.sink("Y"), zap.DebugLevel), opts...)
+	case "Ca": // console logger whose time and level columns are structured: the callbacks append an array each
+		cfg := consCfg()
+		col := func(tag string, v func(zapcore.ArrayEncoder)) func(zapcore.PrimitiveArrayEncoder) {
+			return func(enc zapcore.PrimitiveArrayEncoder) {
+				if ae, ok := enc.(zapcore.ArrayEncoder); ok {
+					_ = ae.AppendArray(zapcore.ArrayMarshalerFunc(func(a zapcore.ArrayEncoder) error { a.AppendString(tag); v(a); return nil }))
+					return
+				}
+				enc.AppendString(tag)
+			}
+		}
+		cfg.EncodeTime = func(t time.Time, enc zapcore.PrimitiveArrayEncoder) {
+			col("T", func(a zapcore.ArrayEncoder) { a.AppendInt64(t.Unix()) })(enc)
+		}
+		cfg.EncodeLevel = func(lv zapcore.Level, enc zapcore.PrimitiveArrayEncoder) {
+			col("L", func(a zapcore.ArrayEncoder) { a.AppendString(lv.String()) })(enc)
+		}
+		l = zap.New(zapcore.NewCore(zapcore.NewConsoleEncoder(cfg), e.sink("Ca"), zap.DebugLevel), opts...)
 	case "Cr": // console logger with its own reflection encoder (EncoderConfig.NewReflectedEncoder)
 		cfg := consCfg()
 		cfg.NewReflectedEncoder = func(w io.Writer) zapcore.ReflectedEncoder { return tagEnc{w, "console-owned:"} }
@@ -310,6 +328,9 @@ var ops = []op{
 	}},
 	{"jre", "JSON logger configured with its own reflection encoder: reflected values in the entry and in derived context", func(e *env) {
 		e.get("Jr").With(zap.Reflect("ctx", pair{5, "j"})).Info("m-jre", zap.Reflect("r", pair{6, "<j>"}), zap.Array("arr", nestArr{1}))
+	}},
+	{"carr", "console logger whose time and level columns are arrays built by the column callbacks (two structured columns in one line)", func(e *env) {
+		e.get("Ca").Warn("m-carr", zap.Int("a", 1))
 	}},
 	{"cc", "console: logger with namespaced context", func(e *env) { e.get("Cc").Info("m-cc", zap.Int("k", 5)) }},
 	{"ccnof", "console: entry without fields through the logger with namespaced context (the stored context is used as it is)", func(e *env) { e.get("Cc").Info("m-ccnof") }},
